@@ -58,6 +58,9 @@ fn verif_native_command_total() {
         ("goto foo+2", "Goto { location: Label(Label { name: \"foo\", offset: 2 }) }"),
         ("goto foo-x10", "Goto { location: Label(Label { name: \"foo\", offset: -16 }) }"),
         ("print ^-3", "Print { location: Memory(PCOffset(-3)) }"),
+        ("print", "Print { location: Memory(PCOffset(0)) }"),
+        ("p", "Print { location: Memory(PCOffset(0)) }"),
+        ("assembly", "Assembly { location: PCOffset(0) }"),
         ("step into 0", "StepInto { count: 1 }"),
         ("step into", "StepInto { count: 1 }"),
         ("si 7", "StepInto { count: 7 }"),
@@ -70,6 +73,16 @@ fn verif_native_command_total() {
         let got = verif_catch(|| Command::try_from(leak(line)).map(|c| describe(&c)).map_err(|_| ()));
         if got != Ok(Ok(want.to_string())) {
             verif_out(&format!("VERIF-COUNTEREXAMPLE name={} input={:?} detail=parses to {:?}, documented meaning {}", name, line, got, want));
+            panic!("violation");
+        }
+    }
+    // a repeat count that is not positive means 1 (the parser's documented contract: "non-positive values will be converted to
+    // 1") or is refused — never a third reading such as the two's complement of the number
+    for line in ["step into -1", "si -1", "si #-5", "si -32768", "si -x1", "step into -0", "si x-7FFF"] {
+        evaluated += 1;
+        let got = verif_catch(|| Command::try_from(leak(line)).map(|c| describe(&c)).map_err(|_| ()));
+        if !(got == Ok(Err(())) || got == Ok(Ok("StepInto { count: 1 }".to_string()))) {
+            verif_out(&format!("VERIF-COUNTEREXAMPLE name={} input={:?} detail=parses to {:?}; a non-positive count means 1 (or the line is refused)", name, line, got));
             panic!("violation");
         }
     }
